@@ -93,6 +93,7 @@ def run(rep, tier, rng):
     rep.cov["requested_x_actual_pairs_covered"] = len(pairs)
     # ---- typed vs generic reads of files of every actual type
     rcases, rmeta = [], []
+    bcases, bmeta = [], []
     for T in TYPES14:
         for rep_i in range(2 if tier == "thorough" else 1):
             m = F.gen_model(rng, T, nrecs=rng.randint(1, 3), null_prob=0.25 if rep_i else 0.0)
@@ -108,6 +109,18 @@ def run(rep, tier, rng):
                 for S in shapes.ALL_CODES:
                     rcases.append(C.read_case(S, shp, shx if with_idx else None, ops))
                     rmeta.append((T, S, items, codes, with_idx))
+            # random access by type and the bulk reads (read_nth_shape_as, read_as / read); also under a header that
+            # announces another type than the records carry (the header type plays no part in reading records)
+            for htype in (T, rng.choice([t for t in TYPES14 if t != T])):
+                m2 = dict(m)
+                m2["type"] = htype
+                shp2, shx2 = refesri.encode_shp(m2), refesri.encode_shx(m2)
+                n = len(codes)
+                for with_idx in (False, True):
+                    ops2 = ([("nth", i) for i in range(n)] if with_idx else []) + [("readall",)]
+                    for S in [-1] + shapes.ALL_CODES:
+                        bcases.append(C.read_case(S, shp2, shx2 if with_idx else None, ops2))
+                        bmeta.append((T, S, items, codes, with_idx, ops2, htype))
     rimpl = stages.correspondence(rep, "read", dev, rcases, "read(typed x actual matrix)")
     generic = {}
     for (T, S, items, codes, wi), r, c in zip(rmeta, rimpl, rcases):
@@ -143,11 +156,53 @@ def run(rep, tier, rng):
             nfail += 1
             if nfail == 1:
                 rep.violation({"kind": "oracle", "what": msg, "case_kind": "read", "case": c, "requested": S, "file_type": T})
+    # ---- typed random access and bulk reads
+    bimpl = stages.correspondence(rep, "read_bulk", dev, bcases, "read(read_nth_shape_as / read_as / read, typed x actual)")
+    for (T, S, items, codes, wi, ops2, htype), r, c in zip(bmeta, bimpl, bcases):
+        rd = C.parse_read(r, ops2)
+        msg = None
+        if "ops" not in rd:
+            msg = "open failed on a file whose header type is %d: %r" % (htype, rd)
+        else:
+            def conv(it, code):
+                if S == -1 or code == S:
+                    return ("ok", list(it))
+                return ("err", 8, S, code)
+            outs = rd["ops"]
+            if wi:
+                for i, code in enumerate(codes):
+                    got = outs[i]["nth"]
+                    want = conv(items[i], code)
+                    got_n = None if got is None else (tuple(got) if got[0] != "ok" else ("ok", list(got[1])))
+                    if got_n != want:
+                        msg = ("read_nth_shape_as::<%d>(%d) of a record of type %d returned %r, the generic read converted gives %r"
+                               % (S, i, code, None if got is None else got[:4], want[:4] if want[0] != "ok" else "ok"))
+                        break
+            if not msg:
+                want_all = []
+                err = None
+                for it, code in zip(items, codes):
+                    cv = conv(it, code)
+                    if cv[0] != "ok":
+                        err = cv
+                        break
+                    want_all.append(cv[1])
+                got = outs[-1]["all"]
+                if err:
+                    if tuple(got) != err:
+                        msg = "read_as::<%d> (header type %d, records %r) returned %r, expected %r" % (S, htype, codes, got[:4], err)
+                elif got[0] != "ok" or [list(v) for v in got[1]] != want_all:
+                    msg = "read_as::<%d> (header type %d, records %r) did not return the %d shapes: %r" % (S, htype, codes, len(want_all), got[:2] if got[0] != "ok" else len(got[1]))
+        if msg:
+            nfail += 1
+            if nfail == 1:
+                rep.violation({"kind": "oracle", "what": msg, "case_kind": "read", "case": c, "requested": S, "file_type": T})
     rep.cov["rule"] = ("conversions: the full matrix of 13 requested types x 14 actual kinds (values from the public constructors, null "
                        "shape included) through Shape::shapetype, HasShapeType, TryFrom, From, and bulk conversions of lists with "
                        "a foreign value (also the null shape) at a random position; reads: reference-encoder files of each of the "
                        "14 types (with null records) read generically and as each of the 13 concrete types, with and without "
-                       "index; oracle: typed result = generic result converted, errors name requested and actual type; "
+                       "index, by iteration, by typed random access (read_nth_shape_as) and in bulk (read_as / read), also under a header "
+                       "announcing another type; oracle: typed result = generic result converted, errors name requested and actual type; "
                        "non-trivial = distinct case")
     rep.cov["exhaustive"] = True
     rep.sample({"conv_case": conv_cases[5][:20], "requested": meta[5][0], "actual": meta[5][1]})
